@@ -254,6 +254,7 @@ def weights_rule(ctx, R):
 
 
 def run(ctx):
+    _wiring(ctx)
     ctx.rule('R07.1', 'direct and inverted cost gate on CHI2INV95[dim-1] with the same comparison; value table')
     ctx.floor('R07.1', gate_rule(ctx, 'R07.1'), 11)
     ctx.rule('R07.2', 'box / point filter sibling agreement; vector filter delegates per point')
@@ -262,3 +263,10 @@ def run(ctx):
     ctx.floor('R07.3', noise_source_rule(ctx, 'R07.3'), 5)
     ctx.rule('R07.4', 'weight wiring: constructors, std helpers, defaults, vector filter')
     ctx.floor('R07.4', weights_rule(ctx, 'R07.4'), 9)
+
+
+def _wiring(ctx):
+    """name-agreement wiring of the configuration values this property depends on (rules/wiring.py)"""
+    import wiring
+    ctx.rule('R07.5', 'configuration plumbing: same-named fields / parameters / setters / call arguments are not crossed')
+    ctx.floor('R07.5', wiring.run(ctx, 'R07.5', {'position_weight', 'velocity_weight'}), 24)
